@@ -48,6 +48,35 @@ type c10PatchEntry struct {
 	Target *c10Sel `json:"target,omitempty"`
 	ByName *c10Res `json:"byName,omitempty"`
 	Key    string  `json:"key"`
+	// options: {allowNameChange: true} / {allowKindChange: true} on THIS entry. The body of a targeted entry
+	// always carries a name and a kind different from what it selects (placeholders); only an entry that
+	// allows it may rename / re-kind its targets, an entry without options never does.
+	AllowName bool `json:"allowName,omitempty"`
+	AllowKind bool `json:"allowKind,omitempty"`
+}
+
+// the name / kind in the body of a targeted entry
+func (e c10PatchEntry) bodyName() string {
+	if e.AllowName {
+		return "ren-" + e.Key
+	}
+	return "not-important"
+}
+
+const c10BodyKind = "NotImportant"
+
+func (e c10PatchEntry) optionsYaml() string {
+	if !e.AllowName && !e.AllowKind {
+		return ""
+	}
+	o := "  options:\n"
+	if e.AllowName {
+		o += "    allowNameChange: true\n"
+	}
+	if e.AllowKind {
+		o += "    allowKindChange: true\n"
+	}
+	return o
 }
 
 // c10Tree: one generated build.
@@ -58,7 +87,7 @@ type c10Tree struct {
 	Images   []c10Image        `json:"images,omitempty"`
 	Replicas []c10ReplicaEntry `json:"replicas,omitempty"`
 	Repls    []c10Repl         `json:"repls,omitempty"`
-	Patch    *c10Sel           `json:"patch,omitempty"` // patches: [{target: ..., patch: SMP adding annotation patched=yes}]
+	Patch    *c10Sel           `json:"patch,omitempty"`   // patches: [{target: ..., patch: SMP adding annotation patched=yes}]
 	Patches  []c10PatchEntry   `json:"patches,omitempty"` // a patches: list mixing targeted and untargeted strategic-merge entries
 }
 
@@ -107,7 +136,7 @@ func (t c10Tree) files() map[string]string {
 		for _, e := range t.Patches {
 			if e.Target != nil {
 				b, _ := json.Marshal(e.Target)
-				k.WriteString("- target: " + string(b) + "\n  patch: |-\n    apiVersion: v1\n    kind: NotImportant\n    metadata:\n      name: not-important\n      annotations:\n        " + e.Key + ": \"yes\"\n")
+				k.WriteString("- target: " + string(b) + "\n  patch: |-\n    apiVersion: v1\n    kind: " + c10BodyKind + "\n    metadata:\n      name: " + e.bodyName() + "\n      annotations:\n        " + e.Key + ": \"yes\"\n")
 			} else {
 				k.WriteString("- patch: |-\n    apiVersion: " + e.ByName.APIVersion + "\n    kind: " + e.ByName.Kind + "\n    metadata:\n      name: " + e.ByName.Name + "\n")
 				if e.ByName.Namespace != "" {
@@ -115,6 +144,7 @@ func (t c10Tree) files() map[string]string {
 				}
 				k.WriteString("      annotations:\n        " + e.Key + ": \"yes\"\n")
 			}
+			k.WriteString(e.optionsYaml())
 		}
 	}
 	if t.Patch != nil {
@@ -1026,6 +1056,25 @@ func c10Annotate(v *c10View, key string) {
 // resources its selector keeps, an untargeted one the single resource its body names (an error if
 // there is none) — whatever the entries before it were.
 func (sp c10Spec) predictPatches(p *c10Pred) {
+	// Resource.ApplySmPatch with allowNameChange / allowKindChange: the current id becomes a previous id
+	// (StorePreviousId), name / kind of the body survive the merge; without the option they are restored
+	allow := func(v *c10View, e c10PatchEntry, name, kind string) {
+		if !e.AllowName && !e.AllowKind {
+			return
+		}
+		old := v.ids[0]
+		cur := old
+		if e.AllowName {
+			cur.name = name
+			v.obj["metadata"].(map[string]interface{})["name"] = name
+		}
+		if e.AllowKind {
+			cur.kind = kind
+			v.obj["kind"] = kind
+		}
+		ids := append([]c10IdT{cur}, v.ids[1:]...)
+		v.ids = append(ids, old)
+	}
 	for _, e := range sp.Patches {
 		if e.Target != nil {
 			for _, pat := range []string{e.Target.Group, e.Target.Version, e.Target.Kind, e.Target.Name, e.Target.Namespace} {
@@ -1034,6 +1083,7 @@ func (sp c10Spec) predictPatches(p *c10Pred) {
 					return
 				}
 			}
+			kept := []*c10View{}
 			for _, v := range p.views {
 				keep, ok := c10SelectKeeps(v, *e.Target)
 				if !ok {
@@ -1041,23 +1091,53 @@ func (sp c10Spec) predictPatches(p *c10Pred) {
 					return
 				}
 				if keep {
-					c10Annotate(v, e.Key)
+					kept = append(kept, v)
+				}
+			}
+			for _, v := range kept {
+				c10Annotate(v, e.Key)
+				allow(v, e, e.bodyName(), c10BodyKind)
+			}
+			if e.AllowName || e.AllowKind {
+				// the map is rebuilt after the patch: two resources with one current id are an error
+				seen := map[c10IdT]bool{}
+				for _, v := range p.views {
+					k := v.ids[0]
+					k.ns = c10EffNsPlain(k.ns)
+					if c10IdClusterScoped(k) {
+						k.ns = ""
+					}
+					if seen[k] {
+						p.err = true
+						return
+					}
+					seen[k] = true
 				}
 			}
 			continue
 		}
 		g, ver := c10SplitAV(e.ByName.APIVersion)
-		n := 0
+		hit := []*c10View{}
 		for _, v := range p.views {
-			cur := v.ids[0]
-			if cur.group == g && cur.version == ver && cur.kind == e.ByName.Kind && cur.name == e.ByName.Name &&
-				c10EffNsPlain(cur.ns) == c10EffNsPlain(e.ByName.Namespace) {
-				c10Annotate(v, e.Key)
-				n++
+			for _, id := range v.ids { // GetById: previous ids count as well as the current one
+				if id.group == g && id.version == ver && id.kind == e.ByName.Kind && id.name == e.ByName.Name &&
+					c10EffNsPlain(id.ns) == c10EffNsPlain(e.ByName.Namespace) {
+					hit = append(hit, v)
+					break
+				}
 			}
 		}
-		if n != 1 {
+		if len(hit) != 1 {
 			p.err = true // no resource (or several) for the named patch
+			return
+		}
+		c10Annotate(hit[0], e.Key)
+		// the body names the resource as it is — nothing visible changes — or as it WAS (a previous id):
+		// with the options set the body's name / kind then come back; without them they are restored anyway
+		before := hit[0].ids[0]
+		allow(hit[0], e, e.ByName.Name, e.ByName.Kind)
+		if hit[0].ids[0] != before {
+			p.unknown = true // renamed back through a previous id: outside the oracle's domain
 			return
 		}
 	}
@@ -1517,6 +1597,24 @@ func c10GenTree(r *Rng) c10Tree {
 					}
 				}
 				t.Patches = append(t.Patches, e)
+			}
+			// options on some entries (seeded C02-g: an entry without options inherits the options of the
+			// closest earlier entry that had some, and then renames / re-kinds what it selects to the
+			// placeholder name / kind of its body): both orders, on targeted and on by-name entries
+			if r.Chance(60) {
+				for i := range t.Patches {
+					if !r.Chance(45) {
+						continue
+					}
+					switch r.Intn(10) {
+					case 0, 1:
+						t.Patches[i].AllowKind = true
+					case 2:
+						t.Patches[i].AllowName, t.Patches[i].AllowKind = true, true
+					default:
+						t.Patches[i].AllowName = true
+					}
+				}
 			}
 		}
 	}
